@@ -22,6 +22,8 @@ const (
 	COLLATION_STRENGTH_DEFAULT
 )
 
+var dbMon vs.Monitor
+
 var (
 	Docs     = map[string][]map[string]interface{}{}
 	Gets     int
@@ -80,7 +82,7 @@ func match(doc map[string]interface{}, filter bson.M, ci bool) bool {
 func key(filter bson.M) string { return fmt.Sprint(filter["ueId"], "/", filter["ratingGroup"]) }
 
 func RestfulAPIGetOne(collName string, filter bson.M, argOpt ...interface{}) (out map[string]interface{}, err error) {
-	vs.Gate("db.Get", key(filter), nil, func() {
+	dbMon.Do("db.Get", key(filter), nil, func() {
 		Gets++
 		for _, d := range Docs[collName] {
 			if match(d, filter, ci(argOpt)) {
@@ -96,7 +98,7 @@ func RestfulAPIGetOne(collName string, filter bson.M, argOpt ...interface{}) (ou
 }
 
 func RestfulAPIPutOne(collName string, filter bson.M, putData map[string]interface{}, argOpt ...interface{}) (ex bool, err error) {
-	vs.Gate("db.Put", key(filter), nil, func() {
+	dbMon.Do("db.Put", key(filter), nil, func() {
 		Puts++
 		for _, d := range Docs[collName] {
 			if match(d, filter, ci(argOpt)) {
